@@ -379,13 +379,17 @@ def check_aereg(c):
     n = len(srcs)
     d = workdir("c19_")
     try:
-        save_catalog(os.path.join(d, "in.csv"), srcs)
-        rc = AeReg.main(["--input", os.path.join(d, "in_comp.csv"), "--table", os.path.join(d, "out.csv"),
+        fmt = c.get("fmt", "csv")        # table format of the input and output catalogue files (double precision ones)
+        save_catalog(os.path.join(d, "in." + fmt), srcs)
+        rc = AeReg.main(["--input", os.path.join(d, "in_comp." + fmt), "--table", os.path.join(d, "out." + fmt),
                          "--eps", repr(c["eps_arcmin"])])
-        if rc != 0 or not os.path.exists(os.path.join(d, "out_comp.csv")):
-            res.bad("aereg-run", "AeReg returned %r, output exists=%s" % (rc, os.path.exists(os.path.join(d, "out_comp.csv"))))
+        if rc != 0 or not os.path.exists(os.path.join(d, "out_comp." + fmt)):
+            res.bad("aereg-run", "AeReg returned %r, output exists=%s" % (rc, os.path.exists(os.path.join(d, "out_comp." + fmt))), fmt=fmt)
             return res
-        out = table_to_source_list(load_table(os.path.join(d, "out_comp.csv")))
+        out = table_to_source_list(load_table(os.path.join(d, "out_comp." + fmt)))
+        for s_ in out:
+            s_.uuid = s_.uuid.decode() if isinstance(s_.uuid, bytes) else str(s_.uuid)
+        res.label("aereg-" + fmt)
     finally:
         shutil.rmtree(d, ignore_errors=True)
     if sorted(s.uuid for s in out) != sorted(s.uuid for s in srcs):
@@ -430,7 +434,8 @@ def check_aereg(c):
 
 
 TESTS = {
-    "aereg": {"strategy": lambda tier: case_strategy.filter(lambda c: c["layout"]["kind"] != "random" or c["layout"]["n"] <= 80),
+    "aereg": {"strategy": lambda tier: st.tuples(case_strategy.filter(lambda c: c["layout"]["kind"] != "random" or c["layout"]["n"] <= 80),
+                                                 st.sampled_from(["csv", "csv", "vot", "xml"])).map(lambda t: dict(t[0], fmt=t[1])),
               "check": check_aereg, "n": {"quick": 150, "thorough": 3000}},
     "dbscan": {"strategy": lambda tier: case_strategy, "check": check_dbscan,
                "n": {"quick": 1200, "thorough": 30000}},
